@@ -1,5 +1,5 @@
 """C16: property tests are reproducible and their counterexamples are real (Shrink.tla & co)."""
-import json, random, time, copy
+import os, json, random, time, copy
 import vlib
 from vlib import log
 from uplc_checks import cj, write_cfg, tla_set
@@ -102,11 +102,59 @@ def c16(tier):
             rep.violation("nondet:" + cj(c), {"case": c, "first": o1.get("final"), "second": o2.get("final")}, "shrinking the same failing case twice gives different reports")
     # verdict layer: the truth table of the three expectations (spec: TestPasses) vs PropertyTestResult / is_success is
     # exercised end to end by the acceptance projects in C17's runs; here only the spec side is stated.
+    # ---- end to end: the authored project corpus/c16_project (the catalogue's fuzzers and properties written in Aiken, three
+    # expectations each) run by the real test runner; each property test is one event for Obs_Shrink (WhyE2E)
+    e2e_events, e2e_ok = [], 0
+    runs = {}
+    for seed in ([42, 7] if tier == "quick" else [42, 7, 1, 2, 3, 99, 12345]):
+        for rep_i in (0, 1):
+            o = vlib.run_harness("project_check", stdin_lines=[{"id": 0, "root": os.path.join(vlib.ROOT, "corpus", "c16_project"), "seed": seed, "max_success": 60}], timeout=3600)[0]
+            if "results" not in o or len(o["results"]) < 58:
+                raise vlib.ToolError("C16: the authored project did not run: %s" % json.dumps(o)[:600])
+            runs[(seed, rep_i)] = {r["name"]: r for r in o["results"]}
+        a, b = runs[(seed, 0)], runs[(seed, 1)]
+        for n in a:
+            va = (a[n]["success"], a[n]["iterations"], a[n]["cex_state"], a[n]["cex"], cj(a[n]["labels"]))
+            vb = (b[n]["success"], b[n]["iterations"], b[n]["cex_state"], b[n]["cex"], cj(b[n]["labels"]))
+            if va != vb:
+                rep.violation("e2e-nondet:%s:%d" % (n, seed), {"test": n, "seed": seed, "first": a[n], "second": b[n]}, "the same property test with the same seed reports differently the second time")
+        for n, r in a.items():
+            if n.startswith("t_"):
+                _, f, p, mode = n.split("_", 3)
+                if r["cex_state"] == "error":
+                    rep.violation("e2e-error:%s:%d" % (n, seed), {"test": n, "seed": seed, "observed": r}, "a well-behaved fuzzer was reported as failing")
+                    continue
+                e2e_events.append({"id": len(e2e_events), "e2e": True, "f": f, "p": p, "mode": mode, "found": r["cex_state"] == "some",
+                                   "value": r["cex"] if r["cex"] is not None else 0, "success": r["success"], "iterations": r["iterations"], "max": 60, "_seed": seed, "_name": n})
+        # fuzzers whose evaluation fails: the error is reported, with the number of samples actually drawn
+        for n in ("x_broken_plain", "x_broken_once"):
+            r = a[n]
+            if r["cex_state"] != "error" or r["success"] or r["iterations"] != 1:
+                rep.violation("e2e-broken:%s:%d" % (n, seed), {"test": n, "seed": seed, "observed": r},
+                              "a fuzzer that fails on its first sample must be reported as an error after 1 iteration, observed %s after %d" % (r["cex_state"], r["iterations"]))
+        d, t = a["x_odd_or_die"], a["x_odd_twin"]
+        if t["cex_state"] == "some" and (d["cex_state"] != "error" or d["iterations"] != t["iterations"]):
+            rep.violation("e2e-abort-count:%d" % seed, {"seed": seed, "aborting": d, "twin": t},
+                          "a fuzzer that fails on the first even byte was reported after %d iterations; the twin test that fails on the same draw reports %d" % (d["iterations"], t["iterations"]))
+    evs = [{k: v for k, v in e.items() if not k.startswith("_")} for e in e2e_events]
+    canary = dict(evs[next(i for i, e in enumerate(evs) if e["found"] and e["f"] == "byte" and e["p"] == "lt3" and e["mode"] == "fail_immediately")])
+    canary["value"] = 1          # 1 < 3 holds: not a counterexample
+    canary["id"] = len(evs)
+    r2 = vlib.validate_observations("Obs_Shrink", evs + [canary], "c16e2e", chunk=500, parallel=4)
+    badids = set(e["id"] for e, _ in r2["bad"])
+    if canary["id"] not in badids:
+        raise vlib.ToolError("C16 end-to-end canary (a non-counterexample) was accepted")
+    for e, why in r2["bad"]:
+        if e["id"] == canary["id"]:
+            continue
+        ev = e2e_events[e["id"]]
+        rep.violation("e2e:%s:%d" % (ev["_name"], ev["_seed"]), {"test": ev["_name"], "seed": ev["_seed"], "observed": runs[(ev["_seed"], 0)][ev["_name"]]}, "property test %s (seed %d): %s" % (ev["_name"], ev["_seed"], why))
+    e2e_ok = r2["ok"]
     improved = sum(1 for e in events if e["final"] != e["init"])
     if len(events) < 500 or improved < 100:
         raise vlib.ToolError("C16 vacuity: %d shrink runs, %d improved" % (len(events), improved))
     cov = {"states": states + res["states"], "transitions": trans + res["generated"],
-           "traces_validated_against_impl": hist_total + res["ok"],
+           "traces_validated_against_impl": hist_total + res["ok"] + e2e_ok, "end_to_end_property_tests": len(e2e_events),
            "samples": [{"cache_history": hist_sample}, {k: events[7][k] for k in ("f", "p", "mode", "init", "final", "value")}],
            "evaluations": hist_total + len(events), "distinct_nontrivial": improved + hist_total,
            "rule": "cache: EVERY history of H queries over all sequences in the bound (TLC, MC_ShrinkCache) replayed on the real Cache, every "
@@ -118,7 +166,7 @@ def c16(tier):
     rc = rep.finish()
     vlib.write_evidence("C16", tier, "model_checking", cov,
                         ["fuzzers are abstract (closures mirroring Shrink.tla's catalogue; the mirror is cross-checked by Obs_Shrink on every query); "
-                         "compiled Aiken fuzzers, seeds, labels and iteration counts of PropertyTest::run are not covered by this check",
+                         "end to end (compiled Aiken fuzzers through PropertyTest::run) only the byte / pair / constant fuzzers of the catalogue are authored; labels are compared for reproducibility only",
                          "MC_Shrink with Adversarial = TRUE documents that the acceptance rule alone is not an order (DESIGN.md)"],
                         time.time() - t0, len(rep.violations))
     return rc
